@@ -1,6 +1,7 @@
 import SJ.Proofs.Tables
 import SJ.Proofs.Located
 import SJ.Proofs.Rebuild
+import SJ.Proofs.DecodeSound
 /-
 C17 — Every produced tape obeys the documented tape format.
 -/
@@ -24,5 +25,30 @@ theorem C17_located_format (pj : PJ) (v : LVal) (h : Ok pj v) : ValAt pj (erase 
 /-- Deserialize rebuilds a tape of exactly the declared size (or fails). -/
 theorem C17_rebuild_size (init : Array UInt64) (tags values : Bytes) :
     ∀ tp, rebuild init tags values = .ok tp → tp.size = init.size := (SJ.Rebuild.rebuild_no_panic init tags values).2.2
+
+open SJ.Layout in
+/-- **The executable format checker decides the documented format.** `wfCheckD` (run on every tape the harness
+    obtains from Parse, ParseND, edits and Deserialize, and mirrored in Go) accepts a tape iff the tape denotes a
+    document in the sense of the relational format `WF`: root pairs pointing at each other, containers properly
+    nested with matching start/end pointers, strings in range, numbers with their payload word, no other tags,
+    and NOP runs whose every skip count stays inside the run. -/
+theorem C17_checker_exact (pj : PJ) : wfCheckD pj = true ↔ ∃ d, WF pj d := DecodeSound.wfCheckD_iff pj
+
+open SJ.Layout in
+/-- The decoder returns the denoted document, and only on well-formed tapes. -/
+theorem C17_decoder_exact (pj : PJ) (ds : List OVal) :
+    decodeTapeD pj = some ds ↔ ∃ d, WF pj d ∧ ds = d.map DecodeSound.toOVal := DecodeSound.decodeTapeD_iff pj ds
+
+open SJ.Layout in
+/-- NOP runs: the gap scanner accepts exactly the runs in which every word is a NOP with `1 ≤ skip` landing inside
+    the run or exactly on the next live entry. -/
+theorem C17_gap_exact (pj : PJ) (i e q : Nat) :
+    skipNopsD pj.tape i e = some q ↔ (Gap pj i q ∧ q ≤ e ∧ (q = e ∨ tagOf (pj.tape.getD q 0) ≠ tagNop)) :=
+  DecodeSound.skipNopsD_iff pj i e q
+
+/-- A checker that only follows the chain of skip counts would accept tapes that denote nothing (a skip that
+    jumps over a live word); this is why the dense scanner is the one used. -/
+theorem C17_chain_checker_unsound : wfCheck DecodeSound.cexPJ = true ∧ ¬ ∃ d, SJ.Layout.WF DecodeSound.cexPJ d :=
+  DecodeSound.chain_checker_unsound
 
 end SJ.Properties.C17
